@@ -35,6 +35,17 @@ def regions():
         return [('src/p8e0.rs', 84, 137, ['C04', 'C12']), ('src/p8e0.rs', 153, 163, ['C04', 'C12']),
                 ('src/p16e1.rs', 94, 150, ['C04', 'C12']), ('src/p16e1.rs', 169, 179, ['C04', 'C12']),
                 ('src/p32e2.rs', 92, 150, ['C04', 'C12']), ('src/p32e2.rs', 170, 180, ['C04', 'C12'])]
+    if '--regions' in sys.argv and sys.argv[sys.argv.index('--regions') + 1] == 'pxe2':
+        # the generic-width PxE2<N> operand spellings and trait facade of Q32E2 (in the histories since
+        # session 3); to_posit -> PxE2<N> (C14) stays out
+        lines = open(os.path.join(REPO, 'src/macros.rs')).read().split('\n')
+        a = next(i for i, l in enumerate(lines) if l.startswith('macro_rules! quire_add_sub_array_x {')) + 1
+        b = next(i for i, l in enumerate(lines) if l.startswith('pub(crate) use quire_add_sub_x;'))
+        q = open(os.path.join(REPO, 'src/quire32.rs')).read().split('\n')
+        qa = next(i for i, l in enumerate(q) if 'impl<const N: u32> crate::Quire<PxE2' in l) + 1
+        qb = next(i for i, l in enumerate(q) if l.startswith('use core::fmt;'))
+        return [('src/macros.rs', a, b, ['C04', 'C12']), ('src/quire32.rs', qa, qb, ['C04', 'C12']),
+                ('src/quire32/convert.rs', 16, 23, ['C12', 'C04'])]
     r = []
     def upto_tests(path):
         lines = open(os.path.join(REPO, path)).read().split('\n')
